@@ -271,6 +271,22 @@ class LbDriver:
         else:
             self.b[b].config.update(self.wrap(obj))
 
+    def upd_files(self, b, objs):
+        """add_config_files(f1, f2, ...): later files over earlier ones, one call"""
+        import yaml
+
+        ps = []
+        for o in objs:
+            self.nfile += 1
+            p = self.scratch / ("cfg-%d-%d.yaml" % (os.getpid(), self.nfile))
+            p.write_text(yaml.dump(self.wrap(o)))
+            ps.append(p)
+        try:
+            self.b[b].add_config_files(*ps)
+        finally:
+            for p in ps:
+                p.unlink()
+
     def set(self, b, key, obj):
         if self.embed == "top":
             self.b[b].set_target_language_configuration_override(key, obj)
@@ -301,7 +317,39 @@ class LbDriver:
         return (self._sec(c.config), o) if self.embed == "top" else (o, o)
 
 
-DRIVERS = {"du": DuDriver, "lc": LcDriver, "lb": LbDriver}
+class RefDriver(DuDriver):
+    """NOT the code under test: a ten-line functional merge that produces the base traces of the binding self-tests, so that the
+    self-tests say something about the machinery whatever state the tree is in.  The T-layer must accept what it produces."""
+    level = "ref"
+
+    def __init__(self, stim, scratch):
+        u, _ = _nn()
+        DV = u.DefaultValue
+
+        def merge(t, s):
+            t = dict(t)
+            for k, v in s.items():
+                if isinstance(v, collections.abc.Mapping):
+                    t[k] = merge(t[k] if isinstance(t.get(k), collections.abc.Mapping) else {}, v)
+                elif not (isinstance(v, DV) and k in t and not isinstance(t[k], DV)):
+                    t[k] = v
+            return t
+
+        self.du = merge
+        self.t, self.p = {}, {}
+        self.keys = None
+        self.optkey = "options"
+        self.group = stim.get("group", False)
+
+    def create(self, b):
+        t = self.du(self.t[b], self.p[b])
+        if self.group and t["options"]["std"] in t["defaults"]:
+            t["options"] = dict(t["options"], **t["defaults"][t["options"]["std"]])
+        self.t[b] = t
+        return b
+
+
+DRIVERS = {"du": DuDriver, "lc": LcDriver, "lb": LbDriver, "ref": RefDriver}
 
 
 def run_stim(stim, scratch, rid=0):
@@ -358,12 +406,29 @@ def run_stim(stim, scratch, rid=0):
             if op[0] == "new":
                 _, b, d = op
                 drv.new(b)
+                if d >= 0 and stim.get("combine_new"):   # document d plays the built-in configuration
+                    drv.upd(b, d, objs[d], "api")
+                    observe(base("new", b, d + 1), b)
+                    continue
                 observe(base("new", b), b)
                 if d >= 0:
                     clashes(drv.target_of(b), objs[d], events)
                     merges_after.append(len(events))
                     drv.upd(b, d, objs[d], stim["docs"][d].get("via", "api"))
                     observe(base("upd", b, d + 1), b)
+            elif op[0] == "updn":     # several files in one call: only the last result can be observed
+                _, b, ds = op
+                for d in ds:
+                    clashes(drv.target_of(b), objs[d], events)
+                    merges_after.append(len(events))
+                drv.upd_files(b, [objs[d] for d in ds])
+                for d in ds[:-1]:
+                    st = base("upd", b, d + 1)
+                    st["blind"] = 1
+                    st["cfg"], st["docs"], st["rep"] = [], [], []
+                    rec["steps"].append(st)
+                    obs_log.append({"cfg": {}})
+                observe(base("upd", b, ds[-1] + 1), b)
             elif op[0] == "upd":
                 _, b, d = op
                 clashes(drv.target_of(b), objs[d], events)
@@ -402,7 +467,7 @@ def run_stim(stim, scratch, rid=0):
 
 
 def group_info(stim, it):
-    if stim.get("lang") != "cpp" or stim.get("embed", "top") != "top":
+    if (stim.get("lang") != "cpp" or stim.get("embed", "top") != "top") and not stim.get("group"):
         return {"defs": 0, "std": 0, "l2k": []}
     l2k = []
     for c, lid in it.leaves.items():
@@ -733,7 +798,11 @@ class Gen:
                 if level == "lb" and r.random() < 0.5:
                     ops.append(["upd", b, r.randrange(ndocs)])
             elif roll < 0.5:
-                ops.append(["upd", r.choice(live), r.randrange(ndocs)])
+                fd = [d for d in range(ndocs) if docs[d]["via"] == "file"]
+                if level == "lb" and len(fd) >= 2 and r.random() < 0.5:
+                    ops.append(["updn", r.choice(live), r.sample(fd, r.randint(2, min(3, len(fd))))])
+                else:
+                    ops.append(["upd", r.choice(live), r.randrange(ndocs)])
             elif roll < 0.7:
                 b = r.choice(live)
                 d = r.randrange(ndocs)
@@ -936,7 +1005,9 @@ def judge(ctx, stims, results, what="history"):
         clauses = [CLAUSE.get(c, c) for c in codes.split("+")]
         out[i] = clauses
         for cl in clauses:
-            ctx.violation("C13|%s|%s" % (cl, results[i]["cls"]),
+            # the aliasing classes describe inputs whose failure mode is a changed document / sibling / context
+            cls = results[i]["cls"] if cl in ("merge.doc_unmodified", "merge.ctx_stable", "merge.deep_union") else "other:" + stims[i]["level"]
+            ctx.violation("C13|%s|%s" % (cl, cls),
                           "%s of the real code is rejected by the P-layer: clause %s first fails at step %s of the recorded trace "
                           "(level %s%s)" % (what, cl, first, stims[i]["level"],
                                             ", argv " + " ".join(results[i]["argv"]) if results[i].get("argv") else ""),
@@ -1063,17 +1134,18 @@ def run(ctx):
         t_ph[0] = time.time()
     # ---- 1. the bounded design ------------------------------------------------------------------------------------------
     # fold: built-in x document x override, every shape of depth <= 3, with/without anchors; invariants + case emission in one run
-    fold_cfg, fold_desc = ctx.pick(("ConfigMerge", "UFoldQ: 8 built-in x 36 file x 117 override shapes"),
-                                   ("ConfigMerge_fold3", "UFold3: 36 built-in x 36 file x 117 override shapes"))
-    _, cases = sliced(ctx, fold_cfg, 16, "ConfigMerge fold " + fold_cfg,
-                      "CopyMode=rebuild Mode=fold %s, Sharings={none,doc}, smallest-key-first" % fold_desc, emit=True)
+    _, cases = sliced(ctx, "ConfigMerge", 16, "ConfigMerge fold (+ case emission)",
+                      "CopyMode=rebuild Mode=fold UFoldQ: 8 built-in x 36 file x 117 override shapes, Sharings={none,doc}, "
+                      "smallest-key-first", emit=True)
     if len(cases) < 10000:
         raise MachineryFailure("too few cases emitted: %d" % len(cases))
+    if not ctx.quick:
+        sliced(ctx, "ConfigMerge_fold3", 16, "ConfigMerge fold, all built-in shapes", "CopyMode=rebuild Mode=fold UFold3: 36 x 36 x 117")
     # dict iteration order must not matter (python dicts iterate in insertion order, which the caller controls)
     sliced(ctx, "ConfigMerge_order", 16, "ConfigMerge fold, any key order",
            "CopyMode=rebuild Mode=fold UOrder (3 x 36 x 117 shapes) AnyOrder=TRUE")
     if not ctx.quick:
-        sliced(ctx, "ConfigMerge_fold4", 16, "ConfigMerge fold, two files", "CopyMode=rebuild Mode=fold UFold4: 8 x 36 x 36 x 117", xmx="4g")
+        sliced(ctx, "ConfigMerge_fold4", 16, "ConfigMerge fold, two files", "CopyMode=rebuild Mode=fold UFold4: 3 x 36 x 36 x 117", xmx="4g")
         sliced(ctx, "ConfigMerge_fold3d", 16, "ConfigMerge fold, API document with default markers in the middle",
                "CopyMode=rebuild Mode=fold UFold3D: 8 x 117 x 117")
     # histories: two builders sharing documents, create/update interleaved
@@ -1140,18 +1212,25 @@ def run(ctx):
     ctx.sample({"direction": "code->spec", "level": "cli", "argv": res[k].get("argv"), "record_steps": res[k]["record"]["steps"][-1]})
     k = next(j for j, s in enumerate(rs) if s["level"] == "lb" and s["lang"] == "cpp")
     ctx.sample({"direction": "code->spec", "level": "lb/cpp", "ops": rs[k]["ops"], "docs": rs[k]["docs"], "heap": rs[k]["heap"]})
-    for s, r in zip(rs, res):
-        if any(o[0] == "create" for o in s["ops"]) and len({o[1] for o in s["ops"] if o[0] == "create"}) < sum(o[0] == "create" for o in s["ops"]):
-            ctx.ambiguous("a builder is used again after it created a context (shares its LanguageConfig with that context): what the "
-                          "earlier context then reports is not asserted; only other builders' contexts and all documents are")
-            break
+    reused = 0
+    for s in rs:
+        first = {}
+        for i, o in enumerate(s["ops"]):
+            if o[0] == "create":
+                first.setdefault(o[1], i)
+        if any(o[0] in ("upd", "updn", "create") and o[1] in first and i > first[o[1]] for i, o in enumerate(s["ops"])):
+            reused += 1
+    if reused:
+        ctx.ambiguous("%d histories use a builder again after it created a context (it shares its LanguageConfig with that context): "
+                      "what the builder and its earlier contexts then report is not asserted; the documents, other builders and other "
+                      "builders' contexts still are" % reused)
     ctx.ambiguous("an option inside a language-standard group (c++17-pmr, cetl++14-17) that the user also gives explicitly: whether it "
                   "survives the group is not asserted (Any)")
     ctx.ambiguous("an explicit scalar met by a later map that consists of default-marked values only: not asserted (Any)")
 
     phase("code->spec")
     # ---- 4. binding self-tests ------------------------------------------------------------------------------------------
-    selftests(ctx, g)
+    selftests(ctx)
     phase("self-tests")
 
     ctx.cov["rule"] = ("spec->code: every terminal state of the fold model (all shapes of depth<=3 x sharing) through deep_update, and "
@@ -1171,46 +1250,51 @@ def run(ctx):
     ctx.not_exercised("cetl++14-17 is exercised at configuration level only (no code is generated with it)")
 
 
-def selftests(ctx, g):
-    # (a) a document that really gets modified / a value that really is wrong must be rejected: corrupt recorded fields
-    s = {"level": "du", "heap": [[["a", {"x": 1}], ["b", {"x": 2}]], [["a", {"x": 3}]]],
+def selftests(ctx, g=None):
+    """binding: one recorded field is corrupted and the T-layer must reject the trace with the clause that speaks about it.  The
+    base traces come from RefDriver (not from the tree), so a broken tree cannot turn a self-test into a machinery failure."""
+    def check(name, stim, mutate, expect):
+        res = run_stim(stim, ctx.scratch, 0)
+        base = res["record"]
+        if tlc.validate_traces(ctx, "ConfigMergeTrace", [base]):
+            raise MachineryFailure("self-test '%s': the reference trace is rejected by the T-layer" % name)
+        ctx.cov["traces_validated_against_impl"] -= 1
+        rec = copy.deepcopy(base)
+        if mutate.__code__.co_argcount == 2:
+            mutate(rec, res["keys"])
+        else:
+            mutate(rec)
+        got = tlc.validate_traces(ctx, "ConfigMergeTrace", [rec]).get(0, "")
+        ctx.selftest(name, expect in got.split(" ")[0].split("+"))
+
+    s = {"level": "ref", "heap": [[["a", {"x": 1}], ["b", {"x": 2}]], [["a", {"x": 3}]]],
          "docs": [{"root": {"r": 0}, "via": "api"}, {"root": {"r": 1}, "via": "api"}],
          "ops": [["new", 1, 0], ["create", 1], ["new", 2, 0], ["upd", 2, 1], ["obs"]], "keys": ["a", "b"]}
-    r = run_stim(s, ctx.scratch, 0)
-    base = r["record"]
-    if tlc.validate_traces(ctx, "ConfigMergeTrace", [base]):
-        raise MachineryFailure("self-test base trace was rejected")
-    ctx.cov["traces_validated_against_impl"] -= 1
-
-    def mutated(fn):
-        rec = copy.deepcopy(base)
-        fn(rec)
-        return tlc.validate_traces(ctx, "ConfigMergeTrace", [rec]).get(0, "")
 
     def m_value(rec):   # builder 2 shows the old value of `a` after the update
         st = [x for x in rec["steps"] if x["op"] == "upd" and x["b"] == 2][-1]
         st["cfg"][0][1]["e"][0][1]["v"] = rec["docs"][0]["e"][0][1]["v"]
-    ctx.selftest("stale value after an update is rejected (merge.precedence)", mutated(m_value).startswith("prec"))
+    check("stale value after an update is rejected (merge.precedence)", s, m_value, "prec")
 
     def m_sibling(rec):  # the sibling key `b` changes although document 2 does not mention it
         st = [x for x in rec["steps"] if x["op"] == "upd" and x["b"] == 2][-1]
         st["cfg"][0][1]["e"][1][1]["v"] = 77
-    ctx.selftest("changed unmentioned sibling is rejected (merge.deep_union)", mutated(m_sibling).startswith("union"))
+    check("changed unmentioned sibling is rejected (merge.deep_union)", s, m_sibling, "union")
 
     def m_doc(rec):
         rec["steps"][-1]["docs"] = [[1, {"k": "m", "v": 0, "e": []}]]
-    ctx.selftest("modified source document is rejected (merge.doc_unmodified)", mutated(m_doc).startswith("unmod"))
+    check("modified source document is rejected (merge.doc_unmodified)", s, m_doc, "unmod")
 
     def m_ctx(rec):      # context 1 (builder 1) reports something else after builder 2 was updated
         c = copy.deepcopy([x for x in rec["steps"] if x["op"] == "create"][0]["rep"][0])
         c[1]["e"][0][1]["v"] = 99
         rec["steps"][-1]["rep"] = [c]
-    ctx.selftest("earlier context changed by another builder is rejected (merge.ctx_stable)", mutated(m_ctx).startswith("stable"))
-    # (b) a default-marked override that displaces an explicit file value
-    s2 = {"level": "lc", "heap": [[["options", {"r": 1}]], [["flag", {"x": True}]], [["flag", {"d": False}]]],
-          "docs": [{"root": {"r": 0}, "via": "file"}, {"root": {"r": 2}, "via": "api"}],
+    check("earlier context changed by another builder is rejected (merge.ctx_stable)", s, m_ctx, "stable")
+
+    # a default-marked override that displaces an explicit file value
+    s2 = {"level": "ref", "heap": [[["options", {"r": 1}]], [["flag", {"x": True}]], [["flag", {"d": False}]]],
+          "docs": [{"root": {"r": 0}, "via": "api"}, {"root": {"r": 2}, "via": "api"}],
           "ops": [["new", 1, 0], ["set", 1, "options", 1], ["create", 1], ["obs"]], "keys": ["options"]}
-    r2 = run_stim(s2, ctx.scratch, 0)
 
     def m_marker(rec):   # the created configuration shows the default-marked False of the override instead of the file's True
         st = [x for x in rec["steps"] if x["op"] == "create"][0]
@@ -1221,28 +1305,31 @@ def selftests(ctx, g):
             node = node["e"][0][1]
         node["v"] = f
         st["cfg"] = [[1, shown]]
-    rec = copy.deepcopy(r2["record"])
-    m_marker(rec)
-    got = tlc.validate_traces(ctx, "ConfigMergeTrace", [rec]).get(0, "")
-    ctx.selftest("default-marked value displacing an explicit one is rejected (merge.default_marker)", "marker" in got)
-    # (c) spec -> code comparison: a perturbed expectation must not match
+    check("default-marked value displacing an explicit one is rejected (merge.default_marker)", s2, m_marker, "marker")
+
+    # a language-standard group that is not applied as a unit
+    s3 = {"level": "ref", "group": True, "combine_new": True,
+          "heap": [[["options", {"r": 1}], ["defaults", {"r": 2}]],
+                   [["std", {"x": "s14"}], ["alloc", {"x": ""}], ["flavor", {"x": "std"}], ["other", {"x": 1}]],
+                   [["s17-pmr", {"r": 3}]],
+                   [["std", {"x": "s17"}], ["alloc", {"x": "pmr::alloc"}], ["flavor", {"x": "pmr"}]],
+                   [["std", {"x": "s17-pmr"}]]],
+          "docs": [{"root": {"r": 0}, "via": "api"}, {"root": {"r": 4}, "via": "api"}],
+          "ops": [["new", 1, 0], ["set", 1, "options", 1], ["create", 1], ["obs"]], "keys": ["options", "defaults"]}
+
+    def m_group(rec, keys):    # `alloc` keeps its built-in value although the selected group documents another one
+        st = [x for x in rec["steps"] if x["op"] == "create"][0]
+        builtin_opts = [e for e in rec["docs"][0]["e"] if e[0] == keys["options"]][0][1]
+        builtin_alloc = [e for e in builtin_opts["e"] if e[0] == keys["alloc"]][0][1]["v"]
+        ent = [e for e in st["rep"][0][2]["e"] if e[0] == keys["alloc"]][0]
+        assert ent[1]["v"] != builtin_alloc
+        ent[1]["v"] = builtin_alloc
+    check("an option of a language-standard group that is not set as a unit is rejected (merge.precedence)", s3, m_group, "prec")
+
+    # spec -> code comparison: a perturbed expectation must not match, a wildcard must
     ctx.selftest("perturbed model expectation is noticed by the replay comparison",
                  not match_exp(("m", {"vk1": ("x", canon(1))}), ("m", {"vk1": ("x", canon(2)), REST: ("x", "r")}))
                  and match_exp(("m", {"vk1": ("any", None)}), ("m", {"vk1": ("x", canon(2)), REST: ("x", "r")})))
-    # (d) the group clause
-    s3 = g.cpp_group()
-    s3["heap"], s3["docs"] = [[["std", {"x": "c++17-pmr"}]]], [{"root": {"r": 0}, "via": "api"}]
-    s3["ops"] = [["new", 1, -1], ["set", 1, "options", 0], ["create", 1], ["obs"]]
-    r3 = run_stim(s3, ctx.scratch, 0)
-    rec = copy.deepcopy(r3["record"])
-    st = [x for x in rec["steps"] if x["op"] == "create"][0]
-    keyid = r3["keys"]["allocator_type"]
-    ent = [e for e in st["rep"][0][2]["e"] if e[0] == keyid][0]
-    ent[1]["v"] = 424242
-    got = tlc.validate_traces(ctx, "ConfigMergeTrace", [rec]).get(0, "")
-    ok0 = not tlc.validate_traces(ctx, "ConfigMergeTrace", [r3["record"]])
-    ctx.cov["traces_validated_against_impl"] -= 1 if ok0 else 0
-    ctx.selftest("an option of the c++17-pmr group that is not set as a unit is rejected", ok0 and got.startswith("prec"))
 
 
 def replay(ctx, case):
